@@ -6,18 +6,18 @@
 (*                                                                               *)
 (*  text   {text:[bytes]}                  the text handed to the subject          *)
 (*  sa     {ok, sa:[...]}                  construction: Ok(array) / Err           *)
-(*  ranks  {r:[[x],...,[]]}                suffix_at_rank(0..=n)                   *)
-(*  text_len {n}                                                                   *)
-(*  lcp    {lcp:[...]}                     LcpArray::as_slice                      *)
-(*  lcp_at {r:[[x],...,[]]}                lcp_at(0..=n)      lcp_absent {}        *)
+(*  ranks  {r:[..., -1], n}                suffix_at_rank(0..=n) (None = -1), text_len *)
+(*  lcp    {lcp:[...], at:[..., -1]}       LcpArray::as_slice, lcp_at(0..=n)        *)
+(*  lcp_at {at:[..., -1]}                  lcp_at(0..=n) only    lcp_absent {}      *)
 (*  bwt    {bwt:[bytes]}                   EnhancedSuffixArray::bwt                *)
-(*  search {api, pats:[[bytes]], res:[[a,b]]}   api = "search": (start, count);    *)
-(*                                         otherwise the half-open range (lo, hi)  *)
-(*  find   {pats, res:[[positions]]}       count {pats, res:[n]}                   *)
-(*  match  {pats, res:[[lo,hi,depth]]}     dictionary sa_match_continuation        *)
-(*  built  {ok, n}   find_ranked {pats, res:[[positions in suffix order]]}  (dict)  *)
-(*  text_proj {text:digest}  sa_proj {n, len, perm, violations}   large case       *)
-(*  panic  {in, msg}                       no action: rejected                     *)
+(*  search {pats:[[bytes]], search?, range?, find?, count?, match?, ranked?}       *)
+(*         the answers of every search API of the subject for the same patterns:   *)
+(*         search = (start, count), range = [lo, hi), find = sorted positions,     *)
+(*         count, match = (lo, hi, depth) of the dictionary matcher, ranked =      *)
+(*         positions in suffix order (find_all_matches)                            *)
+(*  built  {ok, n}                         dictionary constructed / refused         *)
+(*  text_proj {text:digest}  sa_proj {n, len, perm, violations, distinct}  large case *)
+(*  panic  {in, msg, head}                 no action: rejected                     *)
 EXTENDS SuffixArray, TraceIO, Known_SuffixArray
 
 VARIABLES l, subj, kf
@@ -26,25 +26,15 @@ vars == <<T, sa, have, l, subj, kf>>
 
 TraceInit == SAInit /\ l = 1 /\ subj = [subject |-> "none"] /\ kf = {}
 
-AsRanges(e) == IF e.api = "search"
-               THEN [k \in 1..Len(e.res) |-> <<e.res[k][1], e.res[k][1] + e.res[k][2]>>]
-               ELSE e.res
-
 Step(e) ==
     \/ e.op = "text"     /\ SetText(e.text)
     \/ e.op = "sa"       /\ e.ok  /\ Built(e.sa)
     \/ e.op = "sa"       /\ ~e.ok /\ BuildRefused
-    \/ e.op = "ranks"    /\ RanksOk(e.r)
-    \/ e.op = "text_len" /\ TextLen(e.n)
-    \/ e.op = "lcp"      /\ Lcp(e.lcp)
-    \/ e.op = "lcp_at"   /\ LcpAt(e.r)
+    \/ e.op = "ranks"    /\ RanksOk(e.r, e.n)
+    \/ e.op \in {"lcp", "lcp_at"} /\ LcpEventAns(e) /\ Same
     \/ e.op = "lcp_absent" /\ LcpAbsent
     \/ e.op = "bwt"      /\ Bwt(e.bwt)
-    \/ e.op = "search"   /\ Searches(e.pats, AsRanges(e))
-    \/ e.op = "find"     /\ Finds(e.pats, e.res)
-    \/ e.op = "count"    /\ Counts(e.pats, e.res)
-    \/ e.op = "match"    /\ Matches(e.pats, e.res)
-    \/ e.op = "find_ranked" /\ RankedFinds(e.pats, e.res)
+    \/ e.op = "search"   /\ SearchEventAns(e) /\ Same
     \/ e.op = "built"    /\ DictBuilt(e.ok, IF e.ok THEN e.n ELSE 0)
     \/ e.op = "text_proj" /\ SetTextProjected
     \/ e.op = "sa_proj"  /\ BuiltProjected(e.n, e.len, e.perm, e.violations)
